@@ -496,7 +496,7 @@ func finish(ck *Check, total *Result, tier string, seed int64, wall float64) int
 		"wall_s":              wall,
 		"violations":          len(fresh),
 		"known_findings_seen": len(knownSeen),
-		"inconclusive":        total.Inconclusive,
+		"inconclusive":        append([]string{}, total.Inconclusive...),
 	}
 	b, _ := json.MarshalIndent(ev, "", " ")
 	os.WriteFile(filepath.Join(verifDir(), "evidence", ck.Prop+".json"), b, 0o644)
